@@ -20,7 +20,7 @@
 typedef struct {
     char id[64], gen[16], out[512];
     int n, P, ps, relax, maxsuper, pert, order, dens, lowfill, kl, ku, vstyle, full, timeout, nrhs, last, fulldiag;
-    int refact, dyn, nzc, zc[64]; long lwork; char focus[32]; int focuspct, focusus; int usepr, npermr, permr[256], zd;
+    int refact, dyn, nzc, zc[64]; long lwork; char focus[32]; int focuspct, focusus; int usepr, npermr, permr[256], zd, fill6, fill7, fill8;
     unsigned long seed; double u; int par[4096]; int npar; char patstr[4096];
 } job_t;
 
@@ -59,6 +59,9 @@ static void parse_job(char *line, job_t *J)
 	else if (!strcmp(tok, "dyn")) J->dyn = atoi(v);
 	else if (!strcmp(tok, "usepr")) J->usepr = atoi(v);
 	else if (!strcmp(tok, "zd")) J->zd = atoi(v);
+	else if (!strcmp(tok, "fill6")) J->fill6 = atoi(v);
+	else if (!strcmp(tok, "fill7")) J->fill7 = atoi(v);
+	else if (!strcmp(tok, "fill8")) J->fill8 = atoi(v);
 	else if (!strcmp(tok, "permr")) {
 	    char *s2 = 0, *t; J->npermr = 0;
 	    for (t = strtok_r(v, ",", &s2); t && J->npermr < 256; t = strtok_r(0, ",", &s2)) J->permr[J->npermr++] = atoi(t);
@@ -110,6 +113,7 @@ static int run_job(job_t *J)
     G(Create_CompCol_Matrix)(&A, n, n, M.nnz, M.val, M.rowind, M.colptr, SLU_NC, SLU_DT, SLU_GE);
     cksA[0] = fnv(M.val, sizeof(SCALAR) * M.nnz); cksA[1] = fnv(M.rowind, sizeof(int_t) * M.nnz); cksA[2] = fnv(M.colptr, sizeof(int_t) * (n + 1));
     vrt_ienv[1] = J->ps; vrt_ienv[2] = J->relax; vrt_ienv[3] = J->maxsuper;
+    if (J->fill6) vrt_ienv[6] = J->fill6; if (J->fill7) vrt_ienv[7] = J->fill7; if (J->fill8) vrt_ienv[8] = J->fill8;
     perm_c = intMalloc(n); perm_r = intMalloc(n);
     if (J->order < 0) for (i = 0; i < n; ++i) perm_c[i] = i; else get_perm_c(J->order, &A, perm_c);
     StatAlloc(n, J->P, J->ps, J->relax, &G); StatInit(n, J->P, &G);
@@ -179,7 +183,7 @@ static int run_job(job_t *J)
 	fprintf(f, ",\"extract\":%d", bad);
 	if (!bad) {
 	    rr = recon_ratio(n, Ad, perm_r, perm_c, Ld, Ud, BOUND_U, &maxl);
-	    fprintf(f, ",\"recon\":%ld,\"maxl\":%ld,\"u1000\":%d,\"usepr\":%d", permille(rr), permille(maxl * (J->u > 0 ? J->u : 0)), (int) (J->u * 1000), use_old);
+	    fprintf(f, ",\"recon\":%ld,\"maxl\":%ld,\"u1000\":%d,\"usepr\":%d", permille(rr), permille(maxl * (J->u > 0 ? J->u : 0) / (IS_COMPLEX ? 1.41421356237309504880L * (1.0L + 1e-12L) : 1.0L)), (int) (J->u * 1000), use_old);
 	    {   /* abstract inputs and outcome of the pivot policy at every step, reconstructed from the returned factors:
 		   class of a candidate row: 0 = not a candidate (already pivoted), 1 = candidate but zero or below the threshold,
 		   2 = eligible (nonzero and >= u * max, clear of rounding), 3 = within rounding of the threshold (undecided) */
@@ -198,9 +202,18 @@ static int run_job(job_t *J)
 			if (perm_r[r] < j) { cls[k2] = 0; continue; }
 			v = perm_r[r] == j ? 1.0L : cabsl(Ld[perm_r[r] + (long) j * n]);    /* |value| / |pivot| */
 			if (v == 0) cls[k2] = 1;
-			else if (v >= uu * M * (1.0L + tol) || (uu == 0)) cls[k2] = 2;
+			else if (uu == 0) cls[k2] = 2;
+#if IS_COMPLEX
+			/* the complex codes compare |re|+|im| (as the BLAS i?amax does); from the returned moduli the
+			   relation is only decided with a factor-2 margin */
+			else if (v >= 2.0L * uu * M * (1.0L + tol)) cls[k2] = 2;
+			else if (v < 0.5L * uu * M * (1.0L - tol)) cls[k2] = 1;
+			else cls[k2] = 3;
+#else
+			else if (v >= uu * M * (1.0L + tol)) cls[k2] = 2;
 			else if (v < uu * M * (1.0L - tol)) cls[k2] = 1;
 			else cls[k2] = (v == uu * M && M == 1.0L) ? 2 : 3;     /* an exact tie with the maximum counts as eligible */
+#endif
 		    }
 		    if (ipr[j] == who[0]) choice |= 1;
 		    if (who[1] >= 0 && ipr[j] == who[1]) choice |= 2;
